@@ -125,10 +125,11 @@ def detect(pid, k, d, checks, log):
 def main():
     a = sys.argv[1:]
     pid = a[0].upper()
-    also, ks = [], []
+    also, ks, detect_only = [], [], False
     i = 1
     while i < len(a):
         if a[i] == "--also": also = a[i + 1].split(","); i += 2
+        elif a[i] == "--detect-only": detect_only = True; i += 1
         else: ks.append(a[i]); i += 1
     base = "/tmp/seed/%s/out" % pid
     if not ks:
@@ -140,8 +141,13 @@ def main():
         meta = {}
         try: meta = json.load(open(os.path.join(d, "meta.json")))
         except Exception: pass
-        v = validate(pid, k, d, log)
-        det = detect(pid, k, d, [pid] + also, log)
+        if detect_only:
+            old = json.load(open("/verif/seeded/%s-%s/meta.json" % (pid, k)))
+            v = old.get("confirmed_by_orchestrator", {})
+            det = dict(old.get("detection", {}), **detect(pid, k, d, also, log))
+        else:
+            v = validate(pid, k, d, log)
+            det = detect(pid, k, d, [pid] + also, log)
         dst = "/verif/seeded/%s-%s" % (pid, k)
         os.makedirs(dst, exist_ok=True)
         for f in ("patch.diff", "demo.rs", "demo.txt"):
